@@ -73,6 +73,11 @@ class Source:
         self.obj = Obj('SourceIterable', dict(is_async=is_async))
         self.pulled = z3.IntVal(0)
         self.iterations = 0
+        # bool(source): the caller's object decides (a lazy cursor whose len() is "rows fetched so far", a collection
+        # loaded on first iteration, ...): falsy does NOT mean "yields nothing"
+        truthy_ = E.fresh('bool_of_the_source_object', B)
+        prev = E.builtins.get('__truth__')
+        E.builtins['__truth__'] = lambda E_, v: (truthy_ if v is self.obj else prev(E_, v) if prev else None)
 
 
 def source_loop(E, src_of, st, qual, out_inv, modifies=('chan', 'gen_out')):
@@ -709,6 +714,19 @@ def install_c17(E, st, Qn):
                 return VStub('loop.call_soon_threadsafe', cst)
             if name == 'stop':
                 return VStub('loop.stop', lambda E_, a, k: NONE, attrs={'loop': o})
+        if isinstance(o, VVal) and o.t.sort() == ValS and name in ('done', 'cancelled'):
+            # the caller's awaitable, if it is a future or a task, may already be settled
+            return VStub('Future.' + name, lambda E_, a, k: VBool(
+                z3.Function('awaitable_is_already_' + name, ValS, B)(o.t)))
+        if isinstance(o, VVal) and o.t.sort() == ValS and name == 'result':
+            def settled_result(E_, a, k):
+                """Future.result() of the caller's own (settled) future: its outcome, read in the CALLING thread"""
+                st.setdefault('read_without_evaluating', []).append(o.t)
+                out = aw_outcome(o.t)
+                if E.branch(is_exc(out)):
+                    raise PyExc(VExc(cls_of(out), (), ident=out, info={'origin': 'awaitable'}))
+                return VVal(out)
+            return VStub('Future.result', settled_result)
         if isinstance(o, Obj) and o.cls == 'ConcFuture' and name in ('result', 'exception'):
             def blocking_result(E_, a, k):
                 E.oblige('%s/bridge.waiting_for_the_target_never_blocks_the_callers_loop' % st['top'], z3.BoolVal(False),
